@@ -135,3 +135,7 @@ C('C33', 'three-way differential: set_source()+compile() vs ffi.verify() with th
 C('C34', 'identity and layout monitors over generated include() graphs (chains, diamonds, fans) in in-line, out-of-line ABI and compiled API mode, against a flat FFI that received the same cdefs without include(); icontract postcondition on Parser.include (model objects shared)',
   'Exploration: 2-4 FFIs per graph where later cdefs are forced to use earlier typedefs/structs/unions/enums/constants; every included declaration must be the same ctype object through every FFI of the graph, layouts equal the flat FFI, constants/enumerators equal, and in API mode functions, globals and constants of included modules are reachable (and writable) through the including lib.',
   'Sanitizer reports are observations. Six recorded findings: included enums are re-created in out-of-line/API modules, included #define constants are not usable in type strings there, anonymous aggregate names collide across included ABI modules (wrong layout / crash).')
+
+C('C37', 'history monitor with a value model before the close and an error-demand after it, on private copies of a gcc-built library (verified unmapped through /proc/self/maps) in in-line and out-of-line ABI mode; child survival (ASan, crash attribution by breadcrumb) is part of the verdict',
+  'Exploration: random histories of 0-25 accesses before ffi.dlclose() (functions fetched or not, scalar/array/struct globals read and written, addressof) and 6-25 after it: reading/writing any global, fetching an unfetched function, addressof of an untouched name must raise; closing again must be harmless; a never-closed RTLD_GLOBAL decoy copy makes accidental dlsym failures impossible.',
+  'Any exception except SystemError/MemoryError counts as refusing; re-fetching names already cached before the close is outside the statement (counted).')
